@@ -26,7 +26,11 @@ MsKinds == {"ms1", "msN", "sync"}
 \* "x<k>f<code>": the k-th property the call reads (mandatory ones first) sits alone in a propstat with a failure status
 XPlace(k, code) == "x" \o ToString(k) \o "f" \o ToString(code)
 XFailPlaces == {XPlace(k, c) : k \in 1..5, c \in {401, 403, 423, 500, 507}}
-FailPlaces == {"resp403", "resp500", "ps403", "ps500"} \cup XFailPlaces
+\* "resp<code>": the response itself carries a status that is not a success (1xx, 3xx, 4xx, 5xx; 404 is a deletion for sync)
+RPlace(c) == "resp" \o ToString(c)
+RespCodes == {100, 102, 199, 300, 301, 302, 304, 307, 399, 400, 401, 403, 409, 423, 499, 500, 507, 599}
+RFailPlaces == {RPlace(c) : c \in RespCodes}
+FailPlaces == {"resp403", "resp500", "ps403", "ps500"} \cup XFailPlaces \cup RFailPlaces
 
 ErrExpected(kind, r) ==
   \/ ~Is2xx(r.st)
